@@ -1163,6 +1163,15 @@ func genC06(r *Run) {
 		r.Add(eV4Reenc, b)
 		r.Add(eV4Dec, b)
 	}
+	{
+		h := make([]byte, 240)
+		copy(h, []byte{2, 1, 6, 0, 1, 2, 3, 4})
+		copy(h[236:], []byte{99, 130, 83, 99})
+		for _, b := range nameFieldShapes(h) {
+			oracleC06v4(r, b)
+			r.Add(eV4Reenc, b)
+		}
+	}
 	// v6: valid, mutated and out-of-range inputs
 	n6 := r.N(2500, 150000)
 	for i := 0; i < n6; i++ {
